@@ -280,3 +280,110 @@ def clock_families():
                 if fm == 60 or hm in (98, 99, 100, 255):
                     out.append(("clock", b % (hm, fm)))
     return out
+
+
+def corner_rook_capture_families():
+    """Every piece type (king, queen, rook, bishop, knight, promoting pawn) capturing a home-corner rook whose owner still holds
+    the castling right, on all four corners; the walk's successor comparison then checks rights, key and bookkeeping after the
+    capture, and one more ply of the owner's moves (castling must be gone)."""
+    out = []
+    corners = {(0, 0): ("R", "Q"), (0, 7): ("R", "K"), (7, 0): ("r", "q"), (7, 7): ("r", "k")}
+    for (cr, cf), (rook, right) in corners.items():
+        white_owner = rook == "R"
+        owner_king = (0, 4) if white_owner else (7, 4)
+        cap = (lambda c: c.lower()) if white_owner else (lambda c: c.upper())     # capturer colour is the other one
+        turn = "b" if white_owner else "w"
+        inward = 1 if cr == 0 else -1
+        fdir = 1 if cf == 0 else -1
+        cands = []
+        cands += [("K", (cr + inward, cf)), ("K", (cr + inward, cf + fdir)), ("K", (cr, cf + fdir))]
+        cands += [("N", (cr + 2 * inward, cf + fdir)), ("N", (cr + inward, cf + 2 * fdir))]
+        cands += [("B", (cr + 3 * inward, cf + 3 * fdir)), ("Q", (cr + 2 * inward, cf + 2 * fdir)), ("Q", (cr + 4 * inward, cf))]
+        cands += [("R", (cr + 5 * inward, cf)), ("P", (cr + inward, cf + fdir))]
+        for kind, sq in cands:
+            g = {(cr, cf): rook, owner_king: ("K" if white_owner else "k"), sq: cap(kind)}
+            if len(g) < 3:
+                continue
+            # the capturing side's own king, away from everything (unless the capturer IS the king)
+            if kind != "K":
+                for ks in ((3, 3), (4, 4), (3, 6), (4, 1)):
+                    if ks not in g and max(abs(ks[0] - owner_king[0]), abs(ks[1] - owner_king[1])) > 1:
+                        g[ks] = cap("K")
+                        break
+            else:
+                if max(abs(sq[0] - owner_king[0]), abs(sq[1] - owner_king[1])) <= 1:
+                    continue
+            # the owner is not to move: its king must not stand in check
+            def owner_in_check(grid):
+                return any(ch.isupper() != white_owner and _attacks_sq(grid, sq2, ch, owner_king) for sq2, ch in grid.items())
+            if owner_in_check(g):
+                continue
+            out.append(("capture-home-rook", board_to_fen(g, turn, right, None)))
+            # and with the second rook / both rights present
+            g2 = dict(g)
+            other = (cr, 7 - cf)
+            if other not in g2:
+                g2[other] = rook
+                if not owner_in_check(g2):
+                    out.append(("capture-home-rook", board_to_fen(g2, turn, "KQ" if white_owner else "kq", None)))
+    return out
+
+
+def _attacks_sq(g, frm, c, to):
+    """does piece char c on frm attack square to, on grid g (sliders stop at blockers)"""
+    (r, f), (tr, tf) = frm, to
+    dr, df = tr - r, tf - f
+    k = c.lower()
+    if k == "n":
+        return (abs(dr), abs(df)) in ((1, 2), (2, 1))
+    if k == "k":
+        return max(abs(dr), abs(df)) == 1
+    if k == "p":
+        return abs(df) == 1 and dr == (1 if c == "P" else -1)
+    line = (dr == 0 or df == 0) and k in "rq" or (abs(dr) == abs(df) and dr != 0) and k in "bq"
+    if not line or (dr == 0 and df == 0):
+        return False
+    sr, sf = (dr > 0) - (dr < 0), (df > 0) - (df < 0)
+    r, f = r + sr, f + sf
+    while (r, f) != (tr, tf):
+        if (r, f) in g:
+            return False
+        r, f = r + sr, f + sf
+    return True
+
+
+def material_families(seed=0, per_sig=2):
+    """Sparse positions over ALL small material signatures (each side: nothing, N, B, R, Q, P, and some pairs), both sides to
+    move: guards against shortcuts keyed on a material class (insufficient-material draws and the like)."""
+    import random
+    rng = random.Random(1000 + seed)
+    singles = ["", "N", "B", "R", "Q", "P"]
+    sigs = [(a, b) for a in singles for b in singles]
+    sigs += [(a, b) for a in ("BN", "NN", "BB", "RP", "QP", "PP") for b in ("", "N", "B", "P")]
+    out = []
+    for w, b in sigs:
+        made = 0
+        tries = 0
+        while made < per_sig and tries < 200:
+            tries += 1
+            g = {}
+            sqs = [(r, f) for r in range(8) for f in range(8)]
+            rng.shuffle(sqs)
+            it = iter(sqs)
+            wk = next(it)
+            bk = next(x for x in it if max(abs(x[0] - wk[0]), abs(x[1] - wk[1])) > 1)
+            g[wk], g[bk] = "K", "k"
+            ok = True
+            for ch in list(w) + list(b.lower()):
+                sq = next(x for x in it if x not in g and not (ch in "Pp" and x[0] in (0, 7)))
+                g[sq] = ch
+            turn = "w" if made % 2 == 0 else "b"
+            # the side NOT to move must not be in check
+            victim = bk if turn == "w" else wk
+            for sq, ch in g.items():
+                if ch.isupper() == (turn == "w") and sq != victim and _attacks_sq(g, sq, ch, victim):
+                    ok = False
+            if ok:
+                out.append(("material:%s-%s" % (w or "0", b or "0"), board_to_fen(g, turn, None, None)))
+                made += 1
+    return out
